@@ -46,3 +46,10 @@ package tcp
 //@ field tcpTransport.* covered
 //@ field tcpTransport.Transport immutable newTcpTransport
 //@ field tcpTransport.client immutable newTcpTransport
+
+// every type with exported methods declares its method set (a type or an exported method added
+// later - something other code can reach through an interface - is reported until it is under contract)
+//@ property C12 C14
+//@ types covered
+//@ methods tcpAcceptor: Accept Close
+//@ methods tcpFactory: Connect Listen Schemes
